@@ -1,10 +1,13 @@
 package props
 
 import (
+	"bytes"
 	"fmt"
 	"go/scanner"
 	"go/token"
 	"strings"
+
+	"github.com/dave/dst/decorator"
 
 	"verif/core"
 	"verif/gen"
@@ -23,7 +26,7 @@ func init() {
 		ID:    "C03",
 		Level: "model_checking",
 		Rule: "choice-tree exploration, NOT canonicalised: every corpus template x <=1 insertion from the 11-letter whitespace+comment alphabet x 6 whole-file transforms (identity, CRLF, BOM, tabs->spaces, indentation stripped, CRLF+BOM), " +
-			"and x <=2 insertions from {/*c*/, // c, newline} (thorough: <=2 from the full alphabet, <=3 from the small one on small templates); every candidate go/parser accepts is decorated and printed; " +
+			"and x <=2 insertions from {/*c*/, // c, newline} (thorough: <=2 from the full alphabet, <=3 from the small one on small templates); every candidate go/parser accepts is decorated and printed (by a fresh Restorer and by one whose FileSet already holds another file: same text); " +
 			"oracle: output parses, token stream (kinds + identifier/literal text, all semicolons by kind, separators before closing delimiters dropped) == that of gofmt(input), comments == input's comments in order modulo whitespace; " +
 			"every template with a //line directive carrying each line number 1..lines+2; plus 7 hanging-indent contexts x every sequence of <=3 (thorough 4) comment lines at 4 indentations x {no blank line, blank line} x {LF, CRLF, spaces}; state = candidate text; non-trivial = candidate that is not already gofmt-canonical",
 		Assumptions: []string{"go/scanner token stream defines 'token sequence'", "comment texts compared with all whitespace removed (the property allows whitespace to differ)"},
@@ -248,6 +251,11 @@ func checkC03(src string) core.Outcome {
 		}
 		return core.Outcome{Key: "error", Desc: fmt.Sprintf("decorate+print returned %v\ninput: %q", err, src)}
 	}
+	// the same tree restored by a Restorer whose FileSet already holds another file (the file is then not
+	// the first of its file set) must print the same text
+	if out2, err2 := roundTripSecondFile(src); err2 == nil && out2 != out {
+		return core.Outcome{Key: "print-depends-on-fileset-position", Desc: fmt.Sprintf("the decorated file prints differently when it is not the first file of the restorer's FileSet\ninput: %q\n%s", src, diffDesc(out, out2))}
+	}
 	ref, ferr := gofmt(src)
 	if ferr != nil {
 		return core.Outcome{OK: true} // outside the quantifier (cannot happen: src parses)
@@ -414,4 +422,20 @@ func emptyBlankLines(src string) string {
 		}
 	}
 	return strings.Join(lines, "\n")
+}
+
+// roundTripSecondFile decorates src and prints it with a Restorer whose FileSet already holds a file.
+func roundTripSecondFile(src string) (string, error) {
+	f, err := decorator.Parse(src)
+	if err != nil {
+		return "", err
+	}
+	r := decorator.NewRestorer()
+	r.Fset.AddFile("earlier.go", r.Fset.Base(), 4321) // the restored file is not the first of its file set
+	var buf bytes.Buffer
+	var perr error
+	if p := guard(func() { perr = r.Fprint(&buf, f) }); p != "" {
+		return "", fmt.Errorf("panic: %s", p)
+	}
+	return buf.String(), perr
 }
